@@ -29,6 +29,8 @@ def run_unit(spec, tier):
         r = units.run_verus(spec['unit'])
     elif kind == 'bx':
         r = units.run_bx(spec['name'], spec['strategy'], spec.get('bounds') or BX_BOUNDS[tier], tier)
+    elif kind == 'bxt':
+        r = units.run_bx_types(spec['name'], 3)
     elif kind == 'bxc':
         r = units.run_bx_convert(spec['name'], 9 if tier == 'thorough' else 7)
     elif kind == 'bxh':
@@ -123,6 +125,11 @@ def make_replay(pid, spec, r, f, tier):
     os.makedirs(d, exist_ok=True)
     stamp = time.strftime('%Y%m%d-%H%M%S')
     base = os.path.join(d, '%s-%s-%s-%d' % (pid, r.name, stamp, len(os.listdir(d))))
+    if f.get('types_case') is not None:
+        path = base + '.json'
+        json.dump({'kind': 'bx-types', 'property': pid, 'clauses': f['types_case'], 'unit': r.name,
+                   'how': './check --replay <this file>: re-runs the type grammar against /repo (the failing types are named in clauses)'}, open(path, 'w'), indent=1)
+        return path, True
     if f.get('convert_case') is not None:
         path = base + '.json'
         json.dump({'kind': 'bx-convert', 'property': pid, 'history': f['convert_case']['history'], 'target': f['convert_case']['target'],
@@ -336,6 +343,17 @@ PROPERTIES['C07'] = {
     'level': 'model_checking', 'units': lambda tier: [GK, K_DATA, CALLSITES], 'all_harnesses_count_for': ['C07'],
     'explanation': 'In-capacity / typed / not-moved-out: CBMC pointer checks on every corpus harness. Alignment: contract of read/write/get/get_mut checked with the record placed at a symbolic slot of an aligned arena and ptr::read/write replaced by alignment-asserting wrappers; probes on a bare (align 1) buffer decide which primitives require an aligned receiver; every call site of the emitted modules is classified by receiver (bare local vs field of the repr(align) record).',
     'unchecked': ['stack placement of locals is not observable in CBMC (every object is aligned): the bare-buffer clause is decided by probe + call-site classification, which is type-directed'],
+}
+PROPERTIES['C17'] = {
+    'level': 'model_checking', 'units': lambda tier: [{'kind': 'bxt', 'name': 'types-standin'}],
+    'explanation': 'The type-name pipeline (std::any::type_name -> syn::parse_str -> path rewriting visitor -> quote -> to_string) and the table lookup keyed by its output '
+                   'are outside both verifiers (no Verus model of syn / quote / strings; a recursive-descent parser over symbolic strings is far beyond what CBMC finished here). '
+                   'As the brief allows for functions out of reach, a bounded check stands in: for every type of a grammar up to nesting depth 3 (2400 distinct types) the '
+                   'recorded name must equal, up to whitespace, the source tokens that denote the type (stringify! of the very tokens used as the generic argument: the same '
+                   'type by construction, judged by rustc when bx is compiled), and a type table must answer under the short, spaced, whitespace-free, fully qualified and '
+                   'recorded spellings alike. BOUNDED, never counted as proved.',
+    'unchecked': ['types of the user\'s crates (their compiler name depends on the crate they are compiled in)', 'slices behind Box are covered as Box<[_]>; references, fn pointers, dyn types are outside the grammar',
+                  'no deductive obligation is generated for this property'],
 }
 PROPERTIES['C20'] = {
     'level': 'model_checking', 'units': lambda tier: [{'kind': 'bxc', 'name': 'convert-standin'}],
